@@ -121,7 +121,7 @@ package stake
 //@ func (sl *StakeLimiter) CheckLimit(delg, changePower)
 //@   requires sl != nil && delg != nil
 //@   assumes delg.TotalPower + changePower >= 0 && (forall i :: 0 <= i && i < len(sl.powerObjs) ==> sl.powerObjs[i] != nil)
-//@   assumes sl.powerObjs != nil ==> sl.baseTotalPower > 0 && sl.baseTotalPower < 2^62 && sl.maxValidatorCnt >= 1 && sl.maxValidatorCnt < 2^31 && changePower > -2^62 && changePower < 2^62
+//@   assumes sl.powerObjs != nil ==> sl.baseTotalPower > 0 && sl.baseTotalPower < 2^62 && sl.maxValidatorCnt >= 1 && sl.maxValidatorCnt < 2^31 && changePower > 0 - 2^62 && changePower < 2^62
 //@   modifies sl.updatedPower, powerObj.Power, elems(sl.powerObjs)
 //@   allocates powerObj
 //@   ensures result != nil ==> sl.updatedPower == old(sl.updatedPower) && (forall o :: old(allocated(o)) ==> as(o, ptr(powerObj)).Power == old(as(o, ptr(powerObj)).Power)) && (forall i :: 0 <= i && i < len(sl.powerObjs) ==> sl.powerObjs[i] == old(sl.powerObjs[i]))   [C05]
